@@ -16,7 +16,7 @@ EXPLANATION = (
 ASSUMPTIONS = ["crossbeam_channel is FIFO and disconnects the receiver when the last sender is dropped"]
 RULE_TEXT = "obligations: one per terminal/delivery send site (sender provenance), per arm script, per clone/storage site, per cancel path row"
 LEVEL_TEXT = ("Structural decision that every terminal consumer message is sent through a sender that has just been removed from the table (so it is the last one), "
-              "with the variant naming the true cause, plus idempotent cancel and cancel-on-drop. FIFO inside crossbeam is trusted; timing is not decided.")
+              "with the variant naming the true cause, queued before the channel's caller is released (so the consumer's receiver is still alive: D12), plus idempotent cancel and cancel-on-drop. FIFO inside crossbeam is trusted; timing is not decided.")
 LEVEL_NOTE = "Trusts rustc HIR/typeck, crossbeam's FIFO/disconnect semantics, the hand-written arm scripts."
 TECHNIQUE = "static analysis: sender-provenance check on symbolic terms, ordered arm scripts vs oracle, ownership (no clone / single storage field) over items"
 
